@@ -2,6 +2,7 @@ package props
 
 import (
 	"fmt"
+	"github.com/nspcc-dev/neo-go/pkg/core/transaction"
 	"math/big"
 	"sort"
 	"testing"
@@ -329,12 +330,25 @@ func TestC09Stateful(t *testing.T) {
 				}
 			case "tick":
 				e := w.epoch + int64(rapid.SampledFrom([]int{-1, 0, 1, 1, 1, 2, 4}).Draw(rt, "epochDelta"))
+				// one tick in five carries the Alphabet's witness with scope CalledByEntry: valid in Netmap, not in Balance
+				// (called by Netmap). Such a tick may be refused as a whole; if it is applied, it is a tick like any other
+				scoped := rapid.IntRange(0, 4).Draw(rt, "calledByEntry") == 0
+				if scoped {
+					w.c.NextScope = transaction.CalledByEntry
+				}
 				o := w.c.Invoke(alpha, w.netmap, "newEpoch", e)
-				h.Op("netmap.newEpoch(%d) at epoch %d -> %s", e, w.epoch, o)
+				h.Op("netmap.newEpoch(%d) at epoch %d calledByEntry=%v -> %s", e, w.epoch, scoped, o)
 				if e <= w.epoch {
 					if o.Halt {
 						fail("C09: tick to epoch %d from %d succeeded", e, w.epoch)
 					}
+					break
+				}
+				if scoped && !o.Halt {
+					if got, _ := w.c.Call(nil, w.netmap, "epoch").Int(); got != w.epoch {
+						fail("C09: a refused tick moved the epoch from %d to %d", w.epoch, got)
+					}
+					h.Mark("scoped-tick-refused")
 					break
 				}
 				if !o.Halt {
